@@ -36,6 +36,7 @@ def run(ctx):
     ctx.guard(_correct_increments_identity, ctx, py)
     ctx.guard(_frame_models, ctx, py)
     ctx.guard(_trace_runs, ctx, py)
+    ctx.guard(_same_update_structure, ctx, py)
     ctx.guard(_standin_a_c, ctx, py)
     ctx.guard(_standin_b, ctx, py)
 
@@ -45,6 +46,44 @@ def run(ctx):
 
 
 # -----------------------------------------------------------------------------------------------
+def _same_update_structure(ctx, py):
+    """A necessary condition of clause (b), decided: both filters process the measurements of one stamp in the same way --
+    sequentially, each correction starting from the posterior of the previous one, every sensor once at the stamp's own
+    time.  (The agreement of the two estimates itself stays undecided; a filter that corrected each sensor from the prior
+    and added the corrections would differ from the other at first order whenever two sensors share a stamp.)"""
+    from props import C10
+    from pvx.zdomain import explore_z, Concretization
+    t0 = time.time()
+    for tag, mod, args in (("feedback", C09, lambda code: (lambda: C09.scenario(py, code, "two", []))),
+                           ("feedforward", C10, lambda code: (lambda: C10.scenario(py, code, "two", False)))):
+        code, info = mod.build(py)
+        agg = {}
+        n_paths = 0
+        try:
+            paths = explore_z(args(code), max_paths=600)
+        except Concretization as exc:
+            ctx.add(Ob("C12.engine.update_structure.%s" % tag, "guard", "error", "python", 0.0, "construct outside the executable subset: %r" % (exc,)))
+            continue
+        for pa, res in paths:
+            n_paths += 1
+            for (name, st, detail, cex) in res["obligations"]:
+                if not name.startswith(("loop.kalman.", "guard.kalman.", "loop.measurement.each_sensor_once", "loop.measurement.own_time")):
+                    continue
+                cur = agg.get(name)
+                rank = dict(proved=0, undecided=1, failed=2)[st]
+                if cur is None or rank > cur[0]:
+                    agg[name] = (rank, st, detail, cex, 1 if cur is None else cur[4] + 1)
+                else:
+                    agg[name] = cur[:4] + (cur[4] + 1,)
+        ctx.paths += n_paths
+        for need in ("loop.kalman.sequential", "guard.kalman.sequential_exercised"):
+            if need not in agg and n_paths:
+                ctx.ob("C12.b.%s.%s" % (tag, need), "c", False, "z3(cut loop)", 0.0, "no such obligation was generated on %d paths (vacuous)" % n_paths)
+        for name in sorted(agg):
+            rank, st, detail, cex, count = agg[name]
+            ctx.add(Ob("C12.b.%s.%s" % (tag, name), "c", st, "z3(cut loop)", (time.time() - t0) / max(1, len(agg)), "%s [%d path instances]" % (detail, count), cex=cex))
+
+
 def _no_data_branch_unreachable(ctx, py):
     code, info = C09.build(py)
     t0 = time.time()
